@@ -588,7 +588,15 @@ def translate(unix_src, ipc_src):
     # named expressions inside send / recv / UnixCmsg::new / OsIpcReceiverSet::new / OsIpcOneShotServer::new
     def emit_named(defname, fn_name, var, params, env_extra, pick=0, kind="val"):
         def go():
-            _, body = find_fn(toks, fn_name, containing=var)
+            body = None
+            for cand in (fn_name if isinstance(fn_name, (list, tuple)) else [fn_name]):
+                try:
+                    _, body = find_fn(toks, cand, containing=var)
+                    break
+                except Untranslatable:
+                    continue
+            if body is None:
+                raise Untranslatable("no fn among %r contains a statement %s" % (fn_name, var))
             found = statements_in_fn(body, {var})
             if var not in found or len(found[var]) <= pick:
                 raise Untranslatable("statement %s in %s not found" % (var, fn_name))
@@ -605,7 +613,7 @@ def translate(unix_src, ipc_src):
     emit_named("send_first_end", "send", "end_byte_position", ["sendbuf_size"], {}, pick=0)
     emit_named("send_follow_end", "send", "end_byte_position", ["byte_position", "sendbuf_size", "data_len"],
                {"len:data": "data_len"}, pick=1)
-    emit_named("recv_follow_end", "recv", "end_pos", ["write_pos", "S", "total_size"], {"__S": "S"})
+    emit_named("recv_follow_end", ["recv_message", "recv"], "end_pos", ["write_pos", "S", "total_size"], {"__S": "S"})
     emit_named("recv_ctl_cap", "new", "cmsg_length", [], {})
 
     def emit_cond(defname, fn_name, after_kw, params, env_extra):
